@@ -350,7 +350,10 @@ func ruleCorridor(w *World, r *Report) {
 	} else {
 		r.add("LAYERFIT", fn+" / layer counts", pos, Violated, why)
 	}
-	// success returns: Unique(Union(A, line)); A ranges over {candidates (skipped mode), measured additions}
+	// success returns: a union / concatenation of lists, possibly de-duplicated;
+	// each result variant (one per choice of the phi-merged operands) must contain
+	// the line IDs; the other operand ranges over {candidates (skipped mode),
+	// measured additions}
 	n := 0
 	var measuredList ssa.Value
 	sawCand := false
@@ -358,31 +361,31 @@ func ruleCorridor(w *World, r *Report) {
 		if classifyReturn(f, ret) != retSuccess {
 			continue
 		}
-		for _, leaf := range phiLeaves(resolve(ret.Results[0])) {
-			u := unwrapUnique(w, leaf)
-			uc, ok := u.(*ssa.Call)
+		for _, variant := range listVariants(w, ret.Results[0], 0) {
 			n++
 			key := fmt.Sprintf("%s / result variant#%d", fn, n)
-			if !ok || !calleeIs(uc, modPath+"/common", "Union") {
-				r.add("INCLUDES", key, w.Pos(ret.Pos()), Violated, "the result is not a union that contains the line IDs ("+describeValue(leaf)+")")
+			hasLine := false
+			for _, part := range variant {
+				if isLine(part) {
+					hasLine = true
+				}
+			}
+			if !hasLine {
+				desc := []string{}
+				for _, part := range variant {
+					desc = append(desc, describeValue(part))
+				}
+				r.add("INCLUDES", key, w.Pos(ret.Pos()), Violated, "the result is not a union that contains the line IDs ("+strings.Join(desc, " + ")+")")
 				continue
 			}
-			a, b := uc.Call.Args[0], uc.Call.Args[1]
-			var other ssa.Value
-			if isLine(b) {
-				other = a
-			} else if isLine(a) {
-				other = b
-			} else {
-				r.add("INCLUDES", key, w.Pos(uc.Pos()), Violated, "the union does not include the line IDs")
-				continue
-			}
-			r.add("INCLUDES", key, w.Pos(uc.Pos()), Discharged, "result = Union(…, line IDs)")
-			for _, ol := range phiLeaves(resolve(other)) {
-				if resolve(ol) == ssa.Value(cand) {
+			r.add("INCLUDES", key, w.Pos(ret.Pos()), Discharged, "result = union of the line IDs and the additions")
+			for _, part := range variant {
+				switch {
+				case isLine(part):
+				case resolve(part) == ssa.Value(cand):
 					sawCand = true
-				} else {
-					measuredList = ol
+				default:
+					measuredList = part
 				}
 			}
 		}
@@ -1459,4 +1462,130 @@ func ruleFoldExact(w *World, r *Report, cl map[*ssa.Function]bool) {
 	if n == 0 {
 		r.add("FOLD-EXACT", "point lookup", "-", Info, "no negation of a longitude found in the closure")
 	}
+}
+
+// listVariants flattens a list expression built from common.Unique,
+// common.Union, slices.Concat and spread appends into its alternative
+// variants (one per choice at a phi that merges different lists); each
+// variant is the list of leaf operands whose union it is.  Loop accumulators
+// (a phi that feeds its own append chain) are leaves.
+func listVariants(w *World, v ssa.Value, depth int) [][]ssa.Value {
+	v = resolve(v)
+	if depth > 6 {
+		return [][]ssa.Value{{v}}
+	}
+	cross := func(as, bs [][]ssa.Value) [][]ssa.Value {
+		var out [][]ssa.Value
+		for _, a := range as {
+			for _, b := range bs {
+				out = append(out, append(append([]ssa.Value{}, a...), b...))
+			}
+		}
+		return out
+	}
+	switch x := v.(type) {
+	case *ssa.Const:
+		if x.Value == nil {
+			return [][]ssa.Value{{}}
+		}
+	case *ssa.Phi:
+		if isAccumulatorPhi(x) {
+			return [][]ssa.Value{{x}}
+		}
+		var out [][]ssa.Value
+		for _, e := range x.Edges {
+			out = append(out, listVariants(w, e, depth+1)...)
+		}
+		return out
+	case *ssa.Call:
+		if calleeIs(x, modPath+"/common", "Unique") && len(x.Call.Args) == 1 {
+			return listVariants(w, x.Call.Args[0], depth+1)
+		}
+		if calleeIs(x, modPath+"/common", "Union") && len(x.Call.Args) == 2 {
+			return cross(listVariants(w, x.Call.Args[0], depth+1), listVariants(w, x.Call.Args[1], depth+1))
+		}
+		if parts := concatParts(x); parts != nil {
+			out := [][]ssa.Value{{}}
+			for _, p := range parts {
+				out = cross(out, listVariants(w, p, depth+1))
+			}
+			return out
+		}
+		if builtinName(x) == "append" {
+			if _, spread := appendedElems(x); spread != nil && !reachesItself(x) {
+				return cross(listVariants(w, x.Call.Args[0], depth+1), listVariants(w, spread, depth+1))
+			}
+		}
+	}
+	if isEmptySliceBase(v) {
+		return [][]ssa.Value{{}}
+	}
+	return [][]ssa.Value{{v}}
+}
+
+// isAccumulatorPhi: the phi is a loop-carried list: one of its edges is an
+// append chain that starts from the phi itself.
+func isAccumulatorPhi(p *ssa.Phi) bool {
+	for _, e := range p.Edges {
+		seen := map[ssa.Value]bool{}
+		var walk func(v ssa.Value) bool
+		walk = func(v ssa.Value) bool {
+			v = stripConv(v)
+			if seen[v] {
+				return false
+			}
+			seen[v] = true
+			if v == ssa.Value(p) {
+				return true
+			}
+			switch y := v.(type) {
+			case *ssa.Phi:
+				for _, e2 := range y.Edges {
+					if walk(e2) {
+						return true
+					}
+				}
+			case *ssa.Call:
+				if builtinName(y) == "append" {
+					return walk(y.Call.Args[0])
+				}
+			}
+			return false
+		}
+		if walk(e) {
+			return true
+		}
+	}
+	return false
+}
+
+// reachesItself: the append is part of a loop-carried accumulation.
+func reachesItself(c *ssa.Call) bool {
+	ai := appendChain(c)
+	for _, b := range ai.Bases {
+		_ = b
+	}
+	seen := map[ssa.Value]bool{}
+	var walk func(v ssa.Value) bool
+	walk = func(v ssa.Value) bool {
+		v = stripConv(v)
+		if seen[v] {
+			return false
+		}
+		seen[v] = true
+		switch y := v.(type) {
+		case *ssa.Phi:
+			for _, e := range y.Edges {
+				if stripConv(e) == ssa.Value(c) || walk(e) {
+					return true
+				}
+			}
+		case *ssa.Call:
+			if builtinName(y) == "append" {
+				return walk(y.Call.Args[0])
+			}
+		}
+		return false
+	}
+	return walk(c.Call.Args[0])
 }
